@@ -458,3 +458,84 @@ func alignAllLengthPairs(r *core.Run, matrix string, judge func(c alnCase, res a
 			return out
 		})
 }
+
+// alignWideAlphabets: sequences that use (almost) all of the 255 letters a byte offers, with and without
+// repeats: an index, a table or a counter sized by "number of distinct letters seen" meets its limits here.
+func alignWideAlphabets(r *core.Run, judge func(c alnCase, res alnResult, changed bool) core.Outcome) {
+	mk := func(kind string) []byte {
+		var n int
+		var out []byte
+		switch {
+		case strings.HasPrefix(kind, "asc:"):
+			fmt.Sscanf(kind, "asc:%d", &n)
+			for i := 0; i < n; i++ {
+				out = append(out, byte(i))
+			}
+		case strings.HasPrefix(kind, "desc:"):
+			fmt.Sscanf(kind, "desc:%d", &n)
+			for i := n - 1; i >= 0; i-- {
+				out = append(out, byte(i))
+			}
+		case strings.HasPrefix(kind, "asc+last:"):
+			fmt.Sscanf(kind, "asc+last:%d", &n)
+			for i := 0; i < n; i++ {
+				out = append(out, byte(i))
+			}
+			out = append(out, byte(n-1))
+		case strings.HasPrefix(kind, "asc+first:"):
+			fmt.Sscanf(kind, "asc+first:%d", &n)
+			for i := 0; i < n; i++ {
+				out = append(out, byte(i))
+			}
+			out = append(out, 0)
+		case strings.HasPrefix(kind, "twice:"):
+			fmt.Sscanf(kind, "twice:%d", &n)
+			for k := 0; k < 2; k++ {
+				for i := 0; i < n; i++ {
+					out = append(out, byte(i))
+				}
+			}
+		}
+		return out
+	}
+	var kinds []string
+	for _, n := range []int{128, 129, 254, 255} {
+		kinds = append(kinds, fmt.Sprint("asc:", n), fmt.Sprint("desc:", n), fmt.Sprint("asc+last:", n), fmt.Sprint("asc+first:", n), fmt.Sprint("twice:", n))
+	}
+	type wideCase struct {
+		Fn string `json:"fn"`
+		A  string `json:"a"`
+		B  string `json:"b"`
+	}
+	core.Clause(r, "wide-alphabets", core.Opts{Rule: "sequences over 128, 129, 254 and all 255 letters (ascending, descending, with the last or the first letter repeated, the whole alphabet twice): every ordered pair x {Global, Local} with Levenshtein; Global == -(edit distance), and judged like every other call; non-trivial = all",
+		Bounds: fmt.Sprintf("%d sequences, all ordered pairs", len(kinds))},
+		func(emit func(wideCase) bool) {
+			for _, fn := range bothFns {
+				for _, a := range kinds {
+					for _, b := range kinds {
+						if !emit(wideCase{fn, a, b}) {
+							return
+						}
+					}
+				}
+			}
+		},
+		func(c wideCase) core.Outcome {
+			a, b := mk(c.A), mk(c.B)
+			ac := alnCase{c.Fn, core.S(a), core.S(b), "Levenshtein"}
+			res, changed := runAlign(ac, align.Levenshtein)
+			if res.panicS == "" && c.Fn == "Global" {
+				if d := ref.EditDistance(a, b); res.score != -float64(d) {
+					return core.Failf("Global(%s, %s, Levenshtein) = %v, the edit distance is %d", c.A, c.B, res.score, d)
+				}
+			}
+			out := judge(ac, res, changed)
+			if out.Fail != "" {
+				out.Fail = fmt.Sprintf("a = %s, b = %s: %s", c.A, c.B, trunc(out.Fail, 300))
+			}
+			if out.Fail == "" && out.Known == "" {
+				out.Class, out.Nontrivial = c.Fn, true
+			}
+			return out
+		})
+}
